@@ -143,6 +143,10 @@ func (g *seqGen) freshName(d *MObj) string {
 		case 5:
 			return "#namemax-1"
 		case 6:
+			if g.rng.Chance(0.4) {
+				// non-ASCII names at and beyond the limit (name_max counts bytes)
+				return fmt.Sprintf("#namemax+%d:~u", []int{0, 1, 2, 3, 8, 40, 100}[g.rng.Intn(7)])
+			}
 			return fmt.Sprintf("#namemax+%d", 2+g.rng.Intn(200))
 		default:
 			return "#namemax+0"
@@ -247,6 +251,9 @@ func (g *seqGen) next() *Op {
 					if r.Chance(0.15) {
 						op.Len = 1 + r.Uint64n(9000) // targets that span several blocks
 					}
+					if r.Chance(0.02) {
+						op.Len = 0 // an empty target is a well-formed request too
+					}
 					if r.Chance(0.03) {
 						// a long target that still fits: accepted, and READLINK returns all of it
 						op.Len = 100000 + r.Uint64n(900000)
@@ -303,6 +310,13 @@ func (g *seqGen) next() *Op {
 				}
 				if r.Chance(0.3) {
 					op.Len = 1 + r.Uint64n(65536)
+				}
+				if r.Chance(0.015) {
+					// a READ far larger than the announced rtmax (over holes it allocates
+					// every block it crosses): answered, possibly with a prefix
+					op.Len = 2200000 + r.Uint64n(1500000)
+					op.Off = 0
+					op.Raw = ""
 				}
 				if o != nil && r.Chance(0.3) {
 					op.Off = 0
@@ -517,6 +531,14 @@ func toIn(op *Op, tbl map[int]string, lim *Limits) *In {
 			if l < 0 {
 				l = 0
 			}
+			if strings.HasPrefix(tag, "~u") {
+				// l bytes of two-byte characters (fewer characters than bytes: limits count bytes)
+				s := strings.Repeat("\u00e9", l/2)
+				if l%2 == 1 {
+					s += "L"
+				}
+				return s
+			}
 			if len(tag) > l {
 				tag = tag[:l]
 			}
@@ -628,7 +650,22 @@ func (g *seqGen) garbageHandle() string {
 		b[i] = byte(r.Uint64())
 	}
 	if l >= 16 {
-		switch r.Intn(4) {
+		switch r.Intn(5) {
+		case 4: // a live-looking handle (small inode number, generation 1) with high bits set in
+			// one of its two numbers: it must not alias the object with those bits dropped
+			ino := uint64(1 + r.Intn(12))
+			gen := uint64(1)
+			hi := uint64(1) << []uint{16, 32, 32, 40, 63}[r.Intn(5)]
+			if r.Chance(0.7) {
+				ino += hi
+			} else {
+				gen += hi
+			}
+			for i := 0; i < 8; i++ {
+				b[i] = byte(ino >> (8 * i))
+				b[8+i] = byte(gen >> (8 * i))
+			}
+			b = b[:16]
 		case 0: // a plausible inode number with a wrong generation
 			for i := 0; i < 8; i++ {
 				b[i] = 0
